@@ -21,6 +21,16 @@ CHECKS = {
             "code that depends on printer/status state is effect-free; (R05c) one-shot iterators are replayable. Equality "
             "of final costs across interleavings is a statement about runtime values and is NOT decided.",
             "DESIGN.md section 4 C05, section 3 E2, Appendix B"),
+    "C07": ("hash-order taint (set-typed expression -> order-sensitive sink), who-may-call with RTA call-graph "
+            "reachability, effect analysis of stores on input-tree parameters",
+            "Static analysis of the sources of nondeterminism and impurity, which are effects visible in the code: "
+            "(R07a) no set/frozenset is iterated into an order-sensitive sink in code reachable from diff/print/CLI "
+            "entry points - covers every hash seed, which no test varies; (R07b) id()/hash() ordering, random, time, "
+            "uuid are unreachable from those entry points; (R07c) diff/print-phase code performs no store rooted at an "
+            "input-tree parameter, TreeNode methods do not write self outside construction, and the _parent "
+            "save/restore is paired in a finally. Byte equality of whole outputs follows only under the assumption "
+            "that third-party libraries are deterministic; that part is NOT decided.",
+            "DESIGN.md section 4 C07, section 3 E3"),
 }
 
 NOT_YET = "check not built yet in this session (static rules designed in DESIGN.md; will be claimed once the rule runs clean)"
